@@ -637,9 +637,8 @@ def run_readonly(d):
 
     def obs():
         s = snapshot(w)
-        # capacity is left out: NumPy lets a read-only owned array be resized, so a failed append may have grown it
-        # (a read-only buffer is not among the rejection causes C07 lists; C09 is about samples and timestamps)
-        return (s["count"], 0, s["start"], s["view"], s["timing"], sorted(s["props"].items()))
+        # capacity and the caller's array included: a rejected call must not have grown the buffer either
+        return (s["count"], s["cap"], s["start"], s["view"], s["timing"], sorted(s["props"].items()), base.shape)
 
     flags = []
     for op in d["ops"]:
